@@ -24,6 +24,9 @@ type NAL struct {
 	// and an emulation prevention byte sits exactly between header and slice
 	// data. 0 = unknown (real streams).
 	HdrMin, HdrMax int
+	// Tags: syntactic conditions of a generated HEVC slice segment header (slice type, source
+	// of the short-term RPS, used-by-curr counts, presence of list modification) for the evidence.
+	Tags []string
 }
 
 // avcSPS/avcPPS hold the parameters the slice header syntax depends on.
